@@ -1106,8 +1106,9 @@ esl_histogram_PlotSurvival(FILE *fp, ESL_HISTOGRAM *h)
   double ai;
   
   /* The observed binned counts:
+   * (imax is -1 if the histogram has no data)
    */
-  if (h->obs[h->imax] > 1) 
+  if (h->imax > -1 && h->obs[h->imax] > 1)
     if (fprintf(fp, "%f\t%g\n", h->xmax, 1.0 / (double) h->Nc) < 0) ESL_EXCEPTION_SYS(eslEWRITE, "histogram survival plot write failed");
   for (i = h->imax; i >= h->imin; i--)
     {
